@@ -47,6 +47,9 @@ from solvor.types import Result
 
 __all__ = ["articulation_points", "bridges"]
 
+# Parent of a DFS root; an object of its own, because None is a legitimate node label
+_ROOT = object()
+
 
 def _undirected_adjacency[S](
     node_list: list[S], node_set: set[S], neighbors: Callable[[S], Iterable[S]]
@@ -103,7 +106,7 @@ def articulation_points[S](
                 # v is an articulation point if:
                 # 1. v is root and has 2+ children, OR
                 # 2. v is not root and low[w] >= discovery[v]
-                if parent[v] is None:
+                if parent[v] is _ROOT:
                     if children >= 2:
                         ap.add(v)
                 elif low[w] >= discovery[v]:
@@ -115,7 +118,7 @@ def articulation_points[S](
     # Handle disconnected components
     for v in node_list:
         if v not in discovery:
-            parent[v] = None
+            parent[v] = _ROOT
             dfs(v)
 
     return Result(ap, len(ap), iterations, n)
